@@ -25,7 +25,11 @@ CHECKS = {
             "4/C03"),
     "C04": (False, "", "", "", "4/C04"),
     "C05": (False, "", "", "", "4/C05"),
-    "C06": (False, "", "", "", "4/C06"),
+    "C06": (True,
+            'self-consistency monitor over real write/read executions: msa object after kalign_run vs msa object after kalign_read_input(kalign_write_msa(...)), field by field (names, residues, gaps[]), first hop in 3 formats and second hop over ordered format pairs, ASan+UBSan build',
+            'Alignments kalign itself produces over the width / row-count / name classes the writers and readers branch on are written in every format, read back and converted again; the re-read msa object must equal the written one in row count, order, names, residues and gap vectors, and a conversion must neither be refused nor silently lose data.',
+            'Names over [A-Za-z0-9_.|-], 1..200 characters; the second hop of a gap-free alignment is only required not to lose data silently (such a file is by design not recognised as an alignment).',
+            "4/C06"),
     "C07": (False, "", "", "", "4/C07"),
     "C08": (True,
             'runtime oracle on the msa object after kalign_run for k identical copies (ASan+UBSan build, hook runtime active), all admissible types x thread counts',
@@ -60,7 +64,11 @@ CHECKS = {
             'Every generated nucleotide/protein input and a random re-spelling of it are aligned by the real library with the same type and thread count; gap patterns must be identical and letters must be those of the re-spelled input. Pairs for which kalign detects different kinds are skipped and counted.',
             'IUPAC codes limited to 4 percent so that both spellings are detected as the same kind; sampled, not exhaustive.',
             "4/C14"),
-    "C15": (False, "", "", "", "4/C15"),
+    "C15": (True,
+            'strict independent parsers (vf/fmt.py) applied to every file the real writers and the CLI produce; header fields recomputed from the msa object (length, GCG checksums, molecule type)',
+            'Every alignment of the workload is written as FASTA, MSF and Clustal by kalign_write_msa and to stdout by the CLI; independent strict readers check wrapping at 60, headers, block structure, that every block lists every sequence in order, and for MSF the declared length, per-row and header GCG checksums and the P/N label against values recomputed from the msa object.',
+            'MSF/Clustal grammar as stated in the property (GCG checksum formula, blocks of at most 60 columns); kind taken from msa->biotype.',
+            "4/C15"),
     "C16": (False, "", "", "", "4/C16"),
     "C17": (False, "", "", "", "4/C17"),
 }
